@@ -29,6 +29,14 @@ CosDefined(a, b) == Norm2(a, b) > 0 /\ Norm2(b, a) > 0
 Query(x, y, a, b) == [x |-> x, y |-> y, sq |-> SqDist(a, b), dot |-> Dot(a, b), nx |-> Norm2(a, b), ny |-> Norm2(b, a),
                       cos |-> IF CosDefined(a, b) THEN 1 ELSE 0]
 
+(* near-duplicates of large norm: a moved far from the origin, and the same with its first coordinate one unit further.
+   Their distance is exactly one unit whatever the norms are (only the Euclidean distance is compared for these: the
+   partial sums of a dot product of such vectors exceed what f32 carries exactly) *)
+FarOffset == 1000
+Off(a) == [i \in 1..Len(a) |-> a[i] + FarOffset]
+Off1(a) == [i \in 1..Len(a) |-> a[i] + FarOffset + (IF i = 1 THEN 1 ELSE 0)]
+QueryE(x, y, a, b) == [x |-> x, y |-> y, sq |-> SqDist(a, b), dot |-> 0, nx |-> 0, ny |-> 0, cos |-> 0]
+NearDuplicateFact(a) == Len(a) >= 1 => SqDist(Off(a), Off1(a)) = 1
 (* ---- the facts the property states, in exact integer form ---- *)
 SymmetricD(a, b) == SqDist(a, b) = SqDist(b, a) /\ Dot(a, b) = Dot(b, a)
 ZeroSelf(a) == SqDist(a, a) = 0
